@@ -139,14 +139,18 @@ class NB:
         if len(op1["inputs"]) < 3 or op1["inputs"][2] < 0:
             return o1
         wt, bt = op1["inputs"][1], op1["inputs"][2]
-        b2 = copy.deepcopy(self.tensors[bt])
-        self.n += 1
-        b2["name"] = "b_twin_%d" % self.n
-        b2["data"] = dict(b2["data"], seed=b2["data"]["seed"] + 17)
-        self.tensors.append(b2)
+        if self.draw(self.st.booleans()):
+            bt2 = bt  # weight-tied towers: the bias tensor is shared as well, only the output quantisation differs
+        else:
+            b2 = copy.deepcopy(self.tensors[bt])
+            self.n += 1
+            b2["name"] = "b_twin_%d" % self.n
+            b2["data"] = dict(b2["data"], seed=b2["data"]["seed"] + 17)
+            self.tensors.append(b2)
+            bt2 = len(self.tensors) - 1
         O = self.info(o1)
         o2 = self.out("twin", O["shape"], O["dtype"], self.quant(O["dtype"]))
-        self.ops.append(dict(copy.deepcopy(op1), inputs=[x, wt, len(self.tensors) - 2], outputs=[o2]))
+        self.ops.append(dict(copy.deepcopy(op1), inputs=[x, wt, bt2], outputs=[o2]))
         return self.binary(o1, "ADD", o2)
 
     def tconv(self, x, force_stride=None):
